@@ -62,6 +62,23 @@ def random_history(rng, k):
     return {"k": k, "cfg": cfg, "pre": [], "ops": ops}
 
 
+def probe_daily_rule(exe):
+    """Behavioural constant of the implementation-shaped model, observed on the real sink at check time: is the next daily
+    point computed from the calendar (TRUE) or as trigger + 24h (FALSE, the pinned code)?  Only the model's predictions
+    (drift comparison) depend on it; the verdict never does."""
+    D = 1686528000   # 2023-06-12 00:00:00 GMT
+    it = {"k": 0, "cfg": {"limit": 0, "maxb": -1, "over": 1, "scheme": "I", "freq": "D", "interval": 1, "daily": "12:00",
+                          "zone": "G", "tz": "GMT", "clean": 1}, "pre": [],
+          "ops": [("C", "w", D + 18 * 3600), ("W", 1, 64, D + 48 * 3600), ("W", 2, 64, D + 60 * 3600)]}
+    obs = rot.run_all(exe, [it], nb=1)
+    cur = rot.final_dir(it, obs).get("logfile.log")
+    if cur == [2]:
+        return True
+    if cur == [1, 2]:
+        return False
+    raise vlib.Infra(f"daily-rule probe: unexpected directory {rot.final_dir(it, obs)}")
+
+
 def run(ck):
     quick = ck.tier == "quick"
     rng = random.Random(ck.seed)
@@ -84,43 +101,44 @@ def run(ck):
         "size clauses as in C14 (rotation at exact fill tolerated either way)",
     ]
     exe = rot.build()
+    calendar_rule = probe_daily_rule(exe)
+    ck.extra["extracted"] = {"daily_next_point_rule": "next calendar HH:MM after the trigger" if calendar_rule else "trigger + 24h"}
     # ---- 1. design level
-    d = 6 if quick else 7
+    d = 5 if quick else 7
     dp = 5 if quick else 6
-    jobs = [("MC_C15_daily_repaired", rot.mc_cfg("MC_C15_daily_repaired", MaxOps=d, FixDaily="TRUE", **DAILY), dict(timeout=1500)),
-            ("MC_C15_coverage", rot.mc_cfg("MC_C15_coverage", MaxOps=4, FixDaily="TRUE", **DAILY), dict(coverage=True, timeout=600)),
-            ("MC_C15_periodic", rot.mc_cfg("MC_C15_periodic", MaxOps=dp, **PERIODIC), dict(timeout=1500)),
-            ("MC_C15_daily_as_coded", rot.mc_cfg("MC_C15_daily_as_coded", MaxOps=d, **DAILY), dict(timeout=600))]
+    REACH = ("NoRotation", "NoTimeSplit", "NoSizeSplitUnderTime", "NoStop", "NoDeletion")
+    d_e = 5
+    dd = dict(DAILY); dd["MaxOps"] = 6
+    jobs = [("MC_C15_daily_repaired", rot.mc_cfg("MC_C15_daily_repaired", MaxOps=d, FixDaily="TRUE", **DAILY), dict(timeout=1700), 6),
+            ("MC_C15_periodic", rot.mc_cfg("MC_C15_periodic", export=True, MaxOps=dp, ExportDepth=4 if quick else d_e, **PERIODIC), dict(timeout=1700), 5 if quick else 6),
+            ("MC_C15_coverage", rot.mc_cfg("MC_C15_coverage", MaxOps=4, FixDaily="TRUE", **DAILY), dict(coverage=True, timeout=600), 1),
+            ]
+    # the daily rule as coded (trigger + 24h), refuted by TLC: one counterexample per clause, replayed on the real sink below
+    WIT = [("MC_C15_daily_as_coded_0", "{}"), ("MC_C15_daily_as_coded_1", '{"time_missed"}')]
+    jobs += [(lbl, rot.mc_cfg(lbl, MaxOps=6, Tolerated=tol, **DAILY), dict(timeout=600), 1) for lbl, tol in WIT]
+    jobs += rot.reach_jobs(ck, dd, REACH)
+    jobs += [("Export_C15_daily", rot.mc_cfg("Export_C15_daily", invariants=("TypeOK",), export=True, MaxOps=d_e, FixDaily="TRUE" if calendar_rule else "FALSE", **DAILY), dict(timeout=1700), 3)]
     res = dict(rot.tlc_parallel(jobs))
     rot.coverage_selftest(res["MC_C15_coverage"], actions=("AConstruct", "AWrite"))
     ck.add_tlc(res["MC_C15_coverage"], "MC_C15_coverage")
     rot.must_hold(ck, "MC_C15_daily_repaired", res["MC_C15_daily_repaired"])
-    rot.must_hold(ck, "MC_C15_periodic", res["MC_C15_periodic"])
-    w = res["MC_C15_daily_as_coded"]
-    ck.add_tlc(w, "MC_C15_daily_as_coded")
-    ck.extra["model_counterexample_daily_as_coded"] = (
-        {"violated": w.violated, "clauses": w.trace[-1]["c"]["why"], "cf": w.trace[-1]["cf"],
-         "history": [[h["op"], h["mode"], h["t"], h["id"], h["sz"]] for h in w.trace[-1]["hist"]],
-         "calendar": "day = 4 units, t=0 is 1 unit after midnight, daily point 2 units into the day (t = 1, 5, 9, ...)"}
-        if w.violated and w.trace else None)
-    dd = dict(DAILY); dd["MaxOps"] = 6
-    rot.reach_selftest(ck, dd, names=("NoRotation", "NoTimeSplit", "NoSizeSplitUnderTime", "NoStop", "NoDeletion"))
+    rot.must_hold(ck, "MC_C15_periodic", res["MC_C15_periodic"], count=False)
+    witnesses = []
+    for lbl, tol in WIT:
+        w = res[lbl]
+        ck.add_tlc(w, lbl)
+        if w.violated and w.trace:
+            witnesses.append({"cf": w.trace[-1]["cf"], "ops": w.trace[-1]["hist"], "clauses": w.trace[-1]["c"]["why"]})
+    ck.extra["model_counterexamples_daily_as_coded"] = [
+        {"cf": x["cf"], "clauses": x["clauses"], "history": [[h["op"], h["mode"], h["t"], h["id"], h["sz"]] for h in x["ops"]],
+         "calendar": "day = 4 units, t=0 is 1 unit after midnight, daily point 2 units into the day (t = 1, 5, 9, ...)"} for x in witnesses]
+    rot.reach_check(ck, res, REACH)
     ck.exhaustive = True
     ck.extra["model_bounds"] = {"daily_depth": d, "periodic_depth": dp, "instants": "increments {0,1,2,5} units; day = 4 units, hour/minute = 2 units",
                                 "note": "daily is exhaustively verified for the repaired next-point rule (FixDaily); the rule as coded "
                                         "(trigger + 24h) is refuted by TLC and the counterexample class is confirmed on the real sink"}
     # ---- 2. behaviours
-    d_e = 5
-    ejobs = [("Export_C15_daily", rot.mc_cfg("Export_C15_daily", invariants=("TypeOK",), export=True, MaxOps=d_e, **DAILY), dict(timeout=1500)),
-             ("Export_C15_periodic", rot.mc_cfg("Export_C15_periodic", invariants=("TypeOK",), export=True, MaxOps=4 if quick else d_e, **PERIODIC), dict(timeout=1500))]
-    ex = {}
-    for lbl, r in rot.tlc_parallel(ejobs):
-        b = vlib.behaviours(r)
-        if len(b) < 1000:
-            raise vlib.Infra(f"behaviour export {lbl} produced too few histories ({len(b)})")
-        r.out = ""
-        ck.add_tlc(r, lbl)
-        ex[lbl] = b
+    ex = {lbl: rot.take_behaviours(ck, res, lbl) for lbl in ("Export_C15_daily", "MC_C15_periodic")}
     ck.extra["histories_exported_by_tlc"] = sum(len(b) for b in ex.values())
     dm = [rot.Mapping(datetime(2023, 6, 12, 6, 0), 21600, "G", "GMT", daily="12:00", freq="D", daylen=4, dayoff=1)]
     for tzname, base in DST:
@@ -129,15 +147,18 @@ def run(ck):
           rot.Mapping(datetime(2023, 6, 12, 22, 30), 1800, "L", "Asia/Kolkata", freq="H", daylen=48, dayoff=45),
           rot.Mapping(datetime(2023, 6, 12, 23, 58, 30), 30, "G", "GMT", freq="M", daylen=48, dayoff=45)]
     items, k = [], 0
-    for lbl, maps in (("Export_C15_daily", dm), ("Export_C15_periodic", pm)):
+    if not calendar_rule:
+        for x in witnesses:
+            items.append(rot.from_behaviour(k, x, dm[0])); k += 1
+    for lbl, maps in (("Export_C15_daily", dm), ("MC_C15_periodic", pm)):
         b = ex[lbl]
-        cap = 9000 if quick else None
-        if cap and len(b) > cap:
+        cap = 6000 if quick else 110000
+        if len(b) > cap:
             b = rng.sample(b, cap)
         for i, x in enumerate(b):
             for mi, mp in enumerate(maps):
-                # quick: GMT for every history, each other mapping for a rotating share
-                if quick and mi != 0 and (i % (2 * (len(maps) - 1))) != mi - 1:
+                # GMT for every history; the other mappings take turns (quick: every second history, thorough: every history)
+                if mi != 0 and (i % ((2 if quick else 1) * (len(maps) - 1))) != mi - 1:
                     continue
                 items.append(rot.from_behaviour(k, x, mp)); k += 1
     n_tlc = len(items)
